@@ -7,7 +7,7 @@ use crate::types::{attr_split, extract_urlref, strp, AttrMap, ClassList, ElRef};
 use crate::TransformConfig;
 
 use std::cell::RefCell;
-use std::collections::HashMap;
+use std::collections::{HashMap, HashSet};
 use std::time::{SystemTime, UNIX_EPOCH};
 
 use rand::prelude::*;
@@ -101,6 +101,9 @@ pub struct TransformerContext {
     elem_map: HashMap<String, SvgElement>,
     /// Original state of given element; used for `reuse` elements
     original_map: HashMap<String, SvgElement>,
+    /// Ids of elements whose most recent attempt failed (and which will be retried).
+    /// They stay in `elem_map` in their raw state, but must not be resolved against.
+    pending: HashSet<String>,
     /// Stack of elements which have been started but not yet ended
     ///
     /// Note empty elements are normally not pushed onto the stack,
@@ -132,6 +135,7 @@ impl Default for TransformerContext {
         Self {
             elem_map: HashMap::new(),
             original_map: HashMap::new(),
+            pending: HashSet::new(),
             element_stack: Vec::new(),
             prev_element: None,
             scope_stack: Vec::new(),
@@ -162,6 +166,11 @@ pub trait ContextView: ElementMap + VariableMap {}
 impl ElementMap for TransformerContext {
     fn get_element(&self, elref: &ElRef) -> Option<&SvgElement> {
         match elref {
+            // An element whose last attempt failed isn't there yet as far as anything
+            // referring to it is concerned: whatever is computed from its raw state (an
+            // unshifted box, a group or clipPath without content box, ...) would change
+            // once it is resolved. The referrer fails with a reference error and is retried.
+            ElRef::Id(id) if self.pending.contains(id) => None,
             ElRef::Id(id) => self.elem_map.get(id),
             ElRef::Prev => self.prev_element.as_ref(),
         }
@@ -480,12 +489,23 @@ impl TransformerContext {
         self.prev_element = Some(el.clone());
     }
 
-    pub fn update_element(&mut self, el: &SvgElement) {
-        if let Some(id) = el.get_attr("id") {
-            let id = eval_attr(&id, self).unwrap_or(id);
-            if self.elem_map.insert(id.clone(), el.clone()).is_none() {
-                self.original_map.insert(id, el.clone());
-            }
+    /// Record whether the latest attempt at the element registered as `id` failed;
+    /// see `pending`.
+    pub fn set_pending(&mut self, id: &str, pending: bool) {
+        if pending {
+            self.pending.insert(id.to_owned());
+        } else {
+            self.pending.remove(id);
         }
+    }
+
+    /// Register (or update) an element; returns the id it is registered under, if any.
+    pub fn update_element(&mut self, el: &SvgElement) -> Option<String> {
+        let id = el.get_attr("id")?;
+        let id = eval_attr(&id, self).unwrap_or(id);
+        if self.elem_map.insert(id.clone(), el.clone()).is_none() {
+            self.original_map.insert(id.clone(), el.clone());
+        }
+        Some(id)
     }
 }
